@@ -366,7 +366,11 @@ _redir_map = (
     "err>p",
     "2>p",
 )
-IORedirect = group(group(*_redir_map), f"{group(*_redir_names)}>>?")
+# a merge / pipe operator ends where it ends: `2>out.txt` is `2>` + `out.txt`,
+# not `2>out` + `.txt`
+IORedirect = group(
+    group(*_redir_map) + r"(?![\w.\-/~+%@])", f"{group(*_redir_names)}>>?"
+)
 
 _redir_check_map = frozenset(_redir_map)
 
